@@ -28,7 +28,8 @@ type c19Content struct {
 }
 
 type c19Op struct {
-	Kind     string       `json:"kind"` // create | block | foreign
+	Kind     string       `json:"kind"` // create | block | foreign | query
+	OddID    string       `json:"odd_id,omitempty"`
 	Who      int          `json:"who,omitempty"`
 	Contents []c19Content `json:"contents,omitempty"`
 	Copies   int          `json:"copies,omitempty"`  // identical messages in the one transaction
@@ -45,16 +46,18 @@ type c19Rec struct {
 }
 
 type c19Machine struct {
-	c      *chain.Case
-	recs   map[string]c19Rec // id -> record
-	order  []string
-	raw    map[string][]byte // record store image of the previous step
-	dup    map[string]int    // creator+contents -> count
-	nDup   int
-	nNoTx  int
-	nLarge int
-	nOps   int
-	seq    int
+	c          *chain.Case
+	recs       map[string]c19Rec // id -> record
+	order      []string
+	raw        map[string][]byte // record store image of the previous step
+	dup        map[string]int    // creator+contents -> count
+	nDup       int
+	nNoTx      int
+	nLarge     int
+	nOddQuery  int
+	queryPanic string
+	nOps       int
+	seq        int
 }
 
 func newC19() pbt.Machine[c19Op] {
@@ -97,8 +100,12 @@ func (m *c19Machine) Next(t *rapid.T) c19Op {
 		}
 		op.Large = large
 		return op
-	case k < 8:
+	case k < 7:
 		return c19Op{Kind: "block", Dt: gen.Dt(t, "dt")}
+	case k < 8:
+		// a read with an id nobody was given: empty, one byte, odd length, not hex, shortened or lengthened real id
+		q := rapid.SampledFrom([]string{"", "0", "05", "ff", "0x", "zz", "0505", strings.Repeat("ab", 31), strings.Repeat("cd", 33), "real-prefix", "real-plus", "real-0x"}).Draw(t, "odd id")
+		return c19Op{Kind: "query", OddID: q, Who: rapid.IntRange(0, 50).Draw(t, "which")}
 	default:
 		return c19Op{Kind: "foreign", Who: rapid.IntRange(0, 2).Draw(t, "who"), Foreign: rapid.IntRange(0, 2).Draw(t, "foreign")}
 	}
@@ -167,6 +174,37 @@ func (m *c19Machine) Apply(op c19Op) error {
 		if end.Outcome != chain.OK || begin.Outcome != chain.OK {
 			return pbt.Failf("C19/block-hook", "block hooks failed: end=%v begin=%v", end, begin)
 		}
+	case "query":
+		// reads never change anything: whatever they answer, every clause of check() must still hold afterwards
+		id := op.OddID
+		if strings.HasPrefix(id, "real-") {
+			if len(m.order) == 0 {
+				break
+			}
+			real := m.order[op.Who%len(m.order)]
+			switch id {
+			case "real-prefix":
+				id = real[:2*(1+op.Who%4)]
+			case "real-plus":
+				id = real + "00"
+			default:
+				id = "0x" + real
+			}
+		}
+		func() {
+			defer func() {
+				if p := recover(); p != nil {
+					m.queryPanic = fmt.Sprintf("query of id %q panicked: %v", id, p)
+				}
+			}()
+			// (the module answers an unknown id with an empty record and no error; the property says nothing about
+			// that, so the answer itself is not judged)
+			_, _ = m.c.E.K.Record.Record(context.Context(m.c.Ctx), &recordtypes.QueryRecordRequest{RecordId: id})
+		}()
+		if m.queryPanic != "" {
+			return pbt.Failf("C19/odd-query", "%s", m.queryPanic)
+		}
+		m.nOddQuery++
 	case "foreign":
 		u := m.c.E.Users[op.Who]
 		m.seq++
@@ -245,10 +283,13 @@ func (m *c19Machine) Classify() (bool, []string) {
 	if m.nNoTx >= 2 {
 		cl = append(cl, "same-tx-hash-in-different-txs")
 	}
+	if m.nOddQuery > 0 {
+		cl = append(cl, "queries-with-ids-never-returned")
+	}
 	return m.nDup > 0, cl
 }
 
-const c19Rule = "rapid state machine: create (1-3 contents from a small alphabet, 1-3 identical messages per tx, 3 creators) / block (all-module blockers) / other-module message; non-trivial = history with >=2 byte-identical records (same creator and contents); distinct by SHA-256 of the op list"
+const c19Rule = "rapid state machine: create (1-3 contents from a small alphabet, 1-3 identical messages per tx, 3 creators) / block (all-module blockers) / other-module message / read with an id nobody was given (empty, one byte, odd length, not hex, shortened or lengthened real id); non-trivial = history with >=2 byte-identical records (same creator and contents); distinct by SHA-256 of the op list"
 
 func init() { pbt.RegisterMachine("c19", newC19) }
 
